@@ -10,16 +10,20 @@ property states and with an independent model (mc/ref/roundtrip.py, mc/ref/sigma
             and are not compared).
   states    dry / with-time / moist / shallow-water states x every tracer subset (0..3 names) x sample axis
             (none, 1..3) x time axis (none, 1..3) x modal | nodal x float64 | float32
-            -> data_to_xarray -> xarray_to_*: documented dimension names, coordinate labels, bit-identical leaves.
+            -> data_to_xarray -> xarray_to_*: documented dimension names, coordinate labels, bit-identical leaves;
+            maybe_to_nodal / maybe_to_modal leave matching leaves and scalars untouched.
   spectral  every ordered pair of the grid list, both layouts, every coefficient basis vector:
             up-sampling puts each (m, kind, l) coefficient at the same label of the finer array (exact), is the same
             function on the finer grid (reference harmonics at the finer grid's nodes), down(up(x)) == x bit for bit,
             down-sampling is label-wise truncation, documented rejections are raised.
-  dicts     every nested dictionary of the lattice: unflatten(flatten(d)) == d, flat form == joined paths,
-            keys containing the separator rejected; replace_with_matching_or_default against a path model.
+  dicts     every nested dictionary of the lattice (key alphabets {a, ab, ac, b}, {'', a, b}, keys with separators):
+            unflatten(flatten(d)) == d, flat form == joined paths, keys containing the separator rejected;
+            replace_with_matching_or_default against a path model.  (An empty-string key holding a non-empty
+            dictionary is known finding F10: those dictionaries carry sig empty_string_key.)
   pytrees   every container structure with <= 3 leaves x shape alphabet x axis for pack/unpack, stack/unstack,
             split/concat along an axis, split_axis.
 """
+import dataclasses
 import itertools
 
 import numpy as np
@@ -52,7 +56,7 @@ RADII = (None, 2.5, 6.37122e6)
 LAYOUTS = ('real', 'fast')
 HAND_GRIDS = ((4, 5, 13, 7), (6, 7, 12, 8), (5, 5, 11, 6), (3, 5, 8, 5))
 TRACER_NAMES = ('specific_humidity', 'specific_cloud_liquid_water_content', 'specific_cloud_ice_water_content', 'age_of_air')
-PRESSURE_VALUES = (50, 100, 250.5, 500, 850, 1000)
+PRESSURE_VALUES = (50, 100, 1000 / 3, 500, 850, 1000)
 
 
 # ---------------------------------------------------------------------------------------------------
@@ -82,6 +86,8 @@ def grid_numbers(spec):
 def _vertical_specs(tier):
   sets = rs.tenths_level_sets(3 if tier == 'quick' else None) + [list(b) for b in rs.IRREGULAR]
   out = [('sigma', b) for b in sets]
+  # equidistant layers: boundaries k/K are not short decimals
+  out += [('sigma', [k / K for k in range(K + 1)]) for K in (3, 6, 7, 9, 11, 12)]
   out += [('layer', k) for k in range(1, 5)]
   for r in range(1, 5):
     out += [('pressure', list(c)) for c in itertools.combinations(PRESSURE_VALUES, r)]
@@ -133,9 +139,9 @@ def bounds(tier):
       coordinate_systems=dict(grids=len(grids), grid_families='with_wavenumbers M<=%d x linear|quadratic|cubic, construct(k<=6,n<=6), 4 hand-picked'
                               % (8 if tier == 'quick' else 16), spacings=list(SPACINGS), longitude_offsets=list(OFFSETS),
                               radii=['None(=1)', 2.5, 6.37122e6], layouts=list(LAYOUTS), verticals=len(_vertical_specs(tier)),
-                              vertical_families='sigma tenths lattice K<=%s + 2 irregular, LayerCoordinates 1..4, pressure subsets of 6 values size<=4'
+                              vertical_families='sigma tenths lattice K<=%s + 2 irregular + equidistant K in {3,6,7,9,11,12}, LayerCoordinates 1..4, pressure subsets of 6 values size<=4'
                               % ('3' if tier == 'quick' else '10')),
-      states=dict(grids=sg, verticals=sv, layouts=list(LAYOUTS), kinds=['primitive', 'primitive_with_time', 'shallow_water', 'data_dict'],
+      states=dict(grids=sg, verticals=sv, layouts=list(LAYOUTS), kinds=['primitive', 'primitive_with_time', 'shallow_water', 'data_dict', 'jax_leaves', 'maybe_to_nodal/maybe_to_modal'],
                   tracer_subsets='all subsets of size 0..3 of %d names' % len(TRACER_NAMES), sample_axis=[None, 1, 2, 3],
                   time_axis=[None, 1, 2, 3], representations=['modal', 'nodal'], dtypes=['float64', 'float32']),
       spectral=dict(grids=_spectral_grids(tier), pairs='all ordered pairs', layouts=list(LAYOUTS), offsets=list(OFFSETS),
@@ -149,7 +155,7 @@ def bounds(tier):
 
 
 def units(tier, seed):
-  pal = core.palette(seed, tier)
+  amps = sorted({p[0] for p in core.palette(seed, tier)}, reverse=True)  # quick: one amplitude, thorough: 1.0 and 0.75
   us = []
   # dictionaries
   for lattice, n in (('design', 4), ('emptykey', 2), ('sepkeys', 1)) + ((('deeper', 24),) if tier == 'thorough' else ()):
@@ -174,12 +180,12 @@ def units(tier, seed):
   for g in sg:
     for layout in LAYOUTS:
       for v in sv:
-        us.append(dict(kind='states', grid=list(g), layout=layout, vertical=list(v), amps=[p[0] for p in pal]))
+        us.append(dict(kind='states', grid=list(g), layout=layout, vertical=list(v), amps=amps))
   # spectral
   glist = _spectral_grids(tier)
   for i in range(len(glist)):
     for layout in LAYOUTS:
-      us.append(dict(kind='spectral', source=i, grids=[list(g) for g in glist], layout=layout, palettes=pal))
+      us.append(dict(kind='spectral', source=i, grids=[list(g) for g in glist], layout=layout, amps=amps))
   return us
 
 
@@ -360,14 +366,26 @@ def _leaf(shape, j, dtype=np.float64):
   return (100.0 * (j + 1) + np.arange(size, dtype=dtype)).reshape(shape)
 
 
+def _exact_all(rec, items, site, key, sig=None):
+  """ONE oracle evaluation per (site, key): every (label, got, want) pair must be bit-identical (shape, dtype, bytes)."""
+  bad = []
+  for label, got, want in items:
+    a, b = np.asarray(got), np.asarray(want)
+    if not (a.shape == b.shape and a.dtype == b.dtype and bool(np.array_equal(a, b, equal_nan=a.dtype.kind in 'fc'))):
+      d = {'leaf': label, 'shape_got': list(a.shape), 'shape_want': list(b.shape), 'dtype_got': str(a.dtype), 'dtype_want': str(b.dtype)}
+      if a.shape == b.shape and a.size and a.dtype.kind in 'fiu' and b.dtype.kind in 'fiu':
+        d['max_abs_diff'] = float(np.nanmax(np.abs(a.astype(np.float64) - b.astype(np.float64))))
+      bad.append(d)
+  return rec.check(not bad, site, key, {'failed_leaves': len(bad), 'of': len(items), 'labels': [d['leaf'] for d in bad][:8],
+                                        'first': bad[0] if bad else None}, sig)
+
+
 def _compare_tree(rec, got, want, site, key):
   """structure (types, keys, arity) and every leaf bit for bit"""
   if not rec.check(rt.same_structure(got, want), site + ':structure', key, {'got': repr(got)[:300], 'want': repr(want)[:300]}):
     return False
-  ok = True
-  for a, b in zip(rt.leaves_in_order(got), rt.leaves_in_order(want)):
-    ok &= rec.exact(np.asarray(a), np.asarray(b), site=site, key=key)
-  return ok
+  pairs = list(zip(rt.leaves_in_order(got), rt.leaves_in_order(want)))
+  return _exact_all(rec, [(i, a, b) for i, (a, b) in enumerate(pairs)], site, key)
 
 
 def _tree_bytes(t):
@@ -510,9 +528,8 @@ def _work_pytrees(unit, rec):
               if not rec.check(isinstance(parts, tuple) and len(parts) == size, 'split_axis_part_count', key,
                                {'got': len(parts), 'want': size}):
                 continue
-              for i, p in enumerate(parts):
-                want = build([np.take(a, [i] if keep else i, axis=axis) for a in leaves])
-                _compare_tree(rec, p, want, 'split_axis_part_is_slice', key)
+              wants = [build([np.take(a, [i] if keep else i, axis=axis) for a in leaves]) for i in range(size)]
+              _compare_tree(rec, list(parts), wants, 'split_axis_part_is_slice', key)
               if keep:
                 joined = pu.concat_along_axis(parts, axis)
               else:
@@ -615,6 +632,7 @@ def _work_states(unit, rec):
              outcome=b''.join(np.ascontiguousarray(ds[k].values).tobytes() for k in sorted(flat_in)) + repr(sorted(dims.items())).encode(),
              sample=dict(sample, dims=dims, sizes=dict(ds.sizes)))
     # names of the dimensions
+    wrong = {}
     for name, role in roles.items():
       if not distinct_shapes and role != 'scalar':
         rec.note('modal_shape_equals_nodal_shape(dimension names not asserted)')
@@ -623,7 +641,9 @@ def _work_states(unit, rec):
         rec.note('surface_field_in_single_layer_system(dimension name not asserted)')
         continue
       want = rt.expected_dims(role, rep, S is not None, T is not None)
-      rec.check(dims[name] == want, 'dimension_names', key, {'variable': name, 'got': list(dims[name]), 'want': list(want)})
+      if dims[name] != want:
+        wrong[name] = {'got': list(dims[name]), 'want': list(want)}
+    rec.check(not wrong, 'dimension_names', key, {'variables': sorted(wrong), 'first': wrong[sorted(wrong)[0]] if wrong else None})
     # coordinate labels of the dimensions in use
     sizes = dict(ds.sizes)
     want_sizes = {}
@@ -652,13 +672,14 @@ def _work_states(unit, rec):
     if not rec.check(isinstance(back, dict) and sorted(back) == want_keys, 'read_back_keys', key,
                      {'got': sorted(back) if isinstance(back, dict) else repr(type(back)), 'want': want_keys}):
       return
+    items = []
     for k in want_keys:
       if k == 'tracers':
         if rec.check(sorted(back[k]) == sorted(data[k]), 'read_back_tracer_names', key, {'got': sorted(back[k]), 'want': sorted(data[k])}):
-          for tname in data[k]:
-            rec.exact(np.asarray(back[k][tname]), data[k][tname], site='read_back_bit_identical', key=key, sig={'variable': 'tracer'})
+          items += [('tracers/' + tname, back[k][tname], data[k][tname]) for tname in data[k]]
       else:
-        rec.exact(np.asarray(back[k]), data[k], site='read_back_bit_identical', key=key)
+        items.append((k, back[k], data[k]))
+    _exact_all(rec, items, 'read_back_bit_identical', key)
     # the dataset carries the coordinate system
     c2 = xu.coordinate_system_from_attrs(ds.attrs)
     _same_discretisation(rec, key, c2, numbers, 'gauss', offset, radius, vspec, vert)
@@ -723,8 +744,7 @@ def _work_states(unit, rec):
           rec.case(key, transitions=2, outcome=b''.join(np.ascontiguousarray(back[k]).tobytes() for k in sorted(back)),
                    sample={'kind': 'data_dict', 'grid': list(spec), 'time_axis': T, 'dims': {k: list(ds[k].dims) for k in data}})
           if rec.check(sorted(back) == sorted(data), 'read_back_keys', key, {'got': sorted(back)}):
-            rec.exact(back['u'], data['u'], site='read_back_bit_identical', key=key)
-            rec.exact(back['v'], data['v'], site='read_back_bit_identical', key=key)
+            _exact_all(rec, [('u', back['u'], data['u']), ('v', back['v'], data['v'])], 'read_back_bit_identical', key)
             rec.exact(back['sp'], np.expand_dims(data['sp'], -3), site='surface_field_gains_level_axis', key=key)
           if distinct_shapes:
             tl = ('time',) if T is not None else ()
@@ -752,9 +772,28 @@ def _work_states(unit, rec):
     ds = xu.data_to_xarray(jdata, coords=coords, times=0.25 * np.arange(2))
     back = xu.xarray_to_shallow_water_eq_data(ds)
     rec.case(key, transitions=2, outcome=b''.join(np.asarray(back[k]).tobytes() for k in sorted(back)))
-    for k in data:
-      rec.exact(np.asarray(back[k]), data[k], site='read_back_bit_identical', key=key)
-      rec.check(tuple(ds[k].dims) == ('time', 'level') + rt.MODAL_DIMS, 'dimension_names', key, {'got': list(ds[k].dims)})
+    _exact_all(rec, [(k, back[k], data[k]) for k in data], 'read_back_bit_identical', key)
+    rec.check(all(tuple(ds[k].dims) == ('time', 'level') + rt.MODAL_DIMS for k in data), 'dimension_names', key,
+              {'got': {k: list(ds[k].dims) for k in data}})
+
+  # maybe_to_nodal / maybe_to_modal: leaves already in the requested representation and scalars are returned untouched,
+  # the others are transformed (compared with the direct transform, bit for bit)
+  key = ('maybe_to', tag)
+  if rec.want(key) and distinct_shapes:
+    tree = {'nodal': field((K,) + nodal, 0, np.float64), 'modal': field((K,) + modal, 1, np.float64) * np.asarray(grid.mask),
+            'sim_time': np.float64(0.75), 'tracers': {'q': field((2, K) + nodal, 2, np.float64)}}
+    as_nodal = cs.maybe_to_nodal(tree, coords)
+    as_modal = cs.maybe_to_modal(tree, coords)
+    rec.case(key, transitions=2, outcome=np.asarray(as_nodal['modal']).tobytes() + np.asarray(as_modal['nodal']).tobytes(),
+             sample={'op': 'maybe_to_nodal/maybe_to_modal', 'grid': list(spec), 'layout': layout})
+    if rec.check(rt.same_structure(as_nodal, tree) and rt.same_structure(as_modal, tree), 'maybe_to:structure', key):
+      _exact_all(rec, [('nodal', as_nodal['nodal'], tree['nodal']), ('tracers/q', as_nodal['tracers']['q'], tree['tracers']['q'])],
+                 'maybe_to_nodal_leaves_nodal_untouched', key)
+      rec.exact(np.asarray(as_modal['modal']), tree['modal'], site='maybe_to_modal_leaves_modal_untouched', key=key)
+      _exact_all(rec, [('to_nodal', as_nodal['sim_time'], tree['sim_time']), ('to_modal', as_modal['sim_time'], tree['sim_time'])],
+                 'maybe_to_leaves_scalars_untouched', key)
+      rec.exact(np.asarray(as_nodal['modal']), np.asarray(grid.to_nodal(tree['modal'])), site='maybe_to_nodal_is_the_transform', key=key)
+      rec.exact(np.asarray(as_modal['nodal']), np.asarray(grid.to_modal(tree['nodal'])), site='maybe_to_modal_is_the_transform', key=key)
 
 
 # -- spectral up / down sampling ----------------------------------------------------------------------------------
@@ -786,18 +825,17 @@ def _work_spectral(unit, rec):
   def compare(got, x, src, dst, site, key):
     """every non-scalar leaf of got equals the label-wise relabelling of x; scalars untouched; same structure"""
     if not rec.check(rt.same_structure(got, x), site + ':structure', key, {'got': repr(jax.tree_util.tree_structure(got))}):
-      return
-    rec.exact(np.asarray(got['sim_time']), np.asarray(x['sim_time']), site=site + ':scalar_untouched', key=key)
-    for name in ('basis', 'u', 'log_surface_pressure', 'flat'):
-      rec.exact(np.asarray(got[name]), rt.relabel(x[name], layout, src, dst), site=site, key=key)
-    rec.exact(np.asarray(got['tracers']['q']), rt.relabel(x['tracers']['q'], layout, src, dst), site=site, key=key)
+      return False
+    ok = rec.exact(np.asarray(got['sim_time']), np.asarray(x['sim_time']), site=site + ':scalar_untouched', key=key)
+    items = [(name, got[name], rt.relabel(x[name], layout, src, dst)) for name in ('basis', 'u', 'log_surface_pressure', 'flat')]
+    items.append(('tracers/q', got['tracers']['q'], rt.relabel(x['tracers']['q'], layout, src, dst)))
+    return _exact_all(rec, items, site, key) and ok
 
   for ti, dst_spec in enumerate(specs):
     Mt, Lt = grid_numbers(dst_spec)[:2]
     up_ok = Ms <= Mt and Ls <= Lt
     down_ok = Ms >= Mt and Ls >= Lt
-    for pal in unit['palettes']:
-      amp = pal[0]
+    for amp in unit['amps']:
       offset = OFFSETS[(unit['source'] + ti) % 2]
       a, b = system(src_spec, offset), system(dst_spec, offset)
       sa, sb = tuple(a.horizontal.modal_shape), tuple(b.horizontal.modal_shape)
@@ -826,23 +864,22 @@ def _work_spectral(unit, rec):
           rec.case(key, transitions=2 * 6, outcome=np.asarray(y['basis']).tobytes(),
                    sample={'source(M,L)': [Ms, Ls], 'target(M,L)': [Mt, Lt], 'layout': layout, 'modal_shapes': [list(sa), list(sb)],
                            'basis_vectors': int(sa[0] * sa[1])})
-          compare(y, x, (Ms, Ls), (Mt, Lt), 'upsample_keeps_every_coefficient_at_its_label', key)
+          placed = compare(y, x, (Ms, Ls), (Mt, Lt), 'upsample_keeps_every_coefficient_at_its_label', key)
           if rec.check(rt.same_structure(z, x), 'down_of_up_is_identity:structure', key):
-            for name in ('basis', 'u', 'log_surface_pressure', 'flat', 'sim_time'):
-              rec.exact(np.asarray(z[name]), np.asarray(x[name]), site='down_of_up_is_identity', key=key)
-            rec.exact(np.asarray(z['tracers']['q']), x['tracers']['q'], site='down_of_up_is_identity', key=key)
-          # same function on the finer grid: synthesis of the up-sampled basis vectors at the finer grid's nodes
-          lon, mu = b.horizontal.nodal_axes
-          Y = rt.harmonics(layout, Ms, Ls, np.asarray(lon) - offset, np.asarray(mu))
-          want = amp * Y.reshape((sa[0] * sa[1],) + Y.shape[2:])
-          got = np.asarray(b.horizontal.to_nodal(y['basis']))
-          rec.close(got, want, scale=abs(amp) * max(1.0, float(np.abs(Y).max())), site='upsampled_is_same_function_on_finer_grid', key=key)
-          # and it is the function the coarse grid represented (coarse wavenumbers on the same nodes)
-          g = b.horizontal
-          import dataclasses
-          coarse_on_fine_nodes = dataclasses.replace(g, longitude_wavenumbers=Ms, total_wavenumbers=Ls)
-          got_c = np.asarray(coarse_on_fine_nodes.to_nodal(x['basis']))
-          rec.close(got, got_c, scale=abs(amp) * max(1.0, float(np.abs(Y).max())), site='upsampled_synthesis_equals_coarse_synthesis', key=key)
+            items = [(name, z[name], x[name]) for name in ('basis', 'u', 'log_surface_pressure', 'flat', 'sim_time')]
+            _exact_all(rec, items + [('tracers/q', z['tracers']['q'], x['tracers']['q'])], 'down_of_up_is_identity', key)
+          if placed:  # the synthesis needs an array of the finer grid's modal shape
+            # same function on the finer grid: synthesis of the up-sampled basis vectors at the finer grid's nodes
+            lon, mu = b.horizontal.nodal_axes
+            Y = rt.harmonics(layout, Ms, Ls, np.asarray(lon) - offset, np.asarray(mu))
+            want = amp * Y.reshape((sa[0] * sa[1],) + Y.shape[2:])
+            got = np.asarray(b.horizontal.to_nodal(y['basis']))
+            fscale = abs(amp) * max(1.0, float(np.abs(Y).max()))
+            rec.close(got, want, scale=fscale, site='upsampled_is_same_function_on_finer_grid', key=key)
+            # and it is the function the coarse truncation represents on those nodes (coarse wavenumbers, finer nodes)
+            coarse_on_fine_nodes = dataclasses.replace(b.horizontal, longitude_wavenumbers=Ms, total_wavenumbers=Ls)
+            got_c = np.asarray(coarse_on_fine_nodes.to_nodal(x['basis']))
+            rec.close(got, got_c, scale=fscale, site='upsampled_synthesis_equals_coarse_synthesis', key=key)
 
       # ---- down-sampling source -> target (label-wise truncation) ----------------------------------
       key = ('down', tag)
